@@ -2126,8 +2126,8 @@ static int32_t parse_XTA(ParserBuilder *aParserBuilder,
 
     // A text with a syntax error that the grammar recovers from (`(3 + )`) is parsed to the end, but what it has
     // left on the operand stack is not what its callbacks were meant to leave: it has failed like one that is given up.
-    const int syntax_errors = utap_nerrs;  // counts on from one parse to the next
-    if (utap_parse() || utap_nerrs != syntax_errors)
+    utap_nerrs = 0;  // the generated parser counts on from one parse to the next
+    if (utap_parse() || utap_nerrs > 0)
     {
         res = -1;
     }
@@ -2152,8 +2152,8 @@ static int32_t parseProperty(ParserBuilder *aParserBuilder, const std::string& x
     yylloc.start = yylloc.end = tracker.position;
     BEGIN(INITIAL);
 
-    const int syntax_errors = utap_nerrs;  // counts on from one parse to the next
-    const int32_t res = (utap_parse() || utap_nerrs != syntax_errors) ? -1 : 0;
+    utap_nerrs = 0;  // the generated parser counts on from one parse to the next
+    const int32_t res = (utap_parse() || utap_nerrs > 0) ? -1 : 0;
     restorer.failed = (res != 0);
     return res;
 }
